@@ -56,7 +56,15 @@ EXPLANATION = (
     "evaluated over an exhaustive finite family of nested list specs over abstract leaf tokens (every spec of depth <= 2 with "
     "lists of length 0..2 over two Bits types, a struct type and a non-type; 3-element lists; 2x2xN arrays; thorough tier: every "
     "spec of depth <= 3) and must accept exactly the specs in which every element has the shape and leaf type of element 0 -- "
-    "the assumption under which the generators derive every element from type_[0]. R-C06-concat: concat puts its first operand most significant and sums the widths. "
+    "the assumption under which the generators derive every element from type_[0]. R-C06-grid: the symbolic generator "
+    "results are unfolded for a grid of 13 concrete field shapes (Bits, nested structs, 1/2/3-dimensional lists, lists of "
+    "structs, struct with lists), the emitted source is parsed and the actions it performs are enumerated -- loops that the "
+    "emitted code itself contains are iterated -- and compared with the specification for that shape (every leaf copied / "
+    "flipped exactly once, clone element k at position k, concat operand order, nbits, absolute slice positions of from_bits); "
+    "it decides generators that emit run-time loops instead of unrolling, to which R-C06-traversal defers. R-C06-fresh: every "
+    "leaf stored by the generated from_bits / clone / __init__ is a constructor call of the field type, a .clone() call or a "
+    "slice of the packed value (never a reference or a conditional pass-through; signature defaults are the None sentinel), "
+    "and the Bits primitives relied upon build new objects (rules.c05 R-C05-value is evaluated as part of C06). R-C06-concat: concat puts its first operand most significant and sums the widths. "
     "NOT decided: user supplied __init__/__eq__/__hash__ overrides, the _bitstruct_hash_cache collision case, the "
     "Bits primitives (slicing, @=, <<=, clone: C04/C05), the Yosys half of R-layout-agree (C12), _create_fn/exec itself.")
 ASSUMPTIONS = [
@@ -90,6 +98,7 @@ class Helper:
         self.cases = {}
         self.steps = 0
         self.extra = {}                  # kind -> [(conditions, value)] : additional return paths of the case
+        self.raw = {}                    # kind -> complete symbolic result (all return paths)
         self.label = ''
         for k in KINDS:
             v, ev, _ = U.eval_case(m, fobj, k, self.tpname)
@@ -97,6 +106,7 @@ class Helper:
             main = arms[-1][1]               # the arm taken when every undecided extra condition is false
             self.extra[k] = [(c, a) for c, a in arms[:-1] if a != main]
             self.cases[k] = (main, ev)
+            self.raw[k] = v
             self.steps += ev.steps
         leaf = self.comps('bits')
         self.ncomp = len(leaf)
@@ -104,6 +114,8 @@ class Helper:
         self.str_idx = [i for i, c in enumerate(leaf) if stringish(c)]
         self.cnt_idx = [i for i, c in enumerate(leaf) if not stringish(c)]
         self.prefix = self.counter = None
+        self.layout_params = []          # string parameters that only lead an emitted line (indentation of emitted blocks)
+        cands = []
         for p in self.params:
             if p == self.tpname:
                 continue
@@ -114,9 +126,19 @@ class Helper:
                     raise AnalysisError(f"{self.qual}: two counter-like parameters")
                 self.counter = p
             elif in_str:
-                if self.prefix is not None:
-                    raise AnalysisError(f"{self.qual}: two prefix-like parameters")
-                self.prefix = p
+                cands.append(p)
+        if len(cands) > 1:
+            def only_leading(p):
+                for i in self.str_idx:
+                    for x in U.walk_values(leaf[i]):
+                        if isinstance(x, Tmpl) and Sym(p) in x.parts and any(q == Sym(p) for q in x.parts[1:]):
+                            return False
+                return True
+            self.layout_params = [p for p in cands if only_leading(p)]
+            cands = [p for p in cands if p not in self.layout_params]
+        if len(cands) > 1:
+            raise AnalysisError(f"{self.qual}: two prefix-like parameters {cands}")
+        self.prefix = cands[0] if cands else None
 
     def comps(self, kind):
         v = self.cases[kind][0]
@@ -473,6 +495,27 @@ def _seq_problems(h, kind, rec, L, spec):
     return pr
 
 
+def emits_loop_header(h):
+    """the list case of a statement-emitting helper puts a `for <v> in range(len(T)):` line in front of the
+    element statements (the generated code iterates at run time)"""
+    for c in h.comps('list'):
+        if not isinstance(c, SeqV):
+            continue
+        for seg, loops, conds in U.flatten(c.segs):
+            if isinstance(seg, Item) and not loops and U.is_stringy(seg.v):
+                t = U.subst_values(seg.v, {Sym(p): Const('') for p in h.layout_params})
+                hl = U.Holes()
+                body, src, err = U.parse_text(mk_block(t), hl, 'exec')
+                if not err and len(body) == 1 and isinstance(body[0], ast.For) and isinstance(body[0].iter, ast.Call) \
+                        and norm(body[0].iter.func) == 'range':
+                    return True
+    return False
+
+
+def mk_block(header):
+    return U.mk_tmpl([header, '\n  pass'])
+
+
 def _check_list_case(r, m, h, spec):
     v, ev = h.cases['list']
     sites = U.rec_sites(v)
@@ -482,6 +525,10 @@ def _check_list_case(r, m, h, spec):
               "traversed", h.fdef.lineno)
         return
     rec = single_rec(sites, fn + '[list]')
+    if all(not s.loops for s in sites) and emits_loop_header(h):
+        r.ok(m, fn, 'list case: emits a `for` loop over the elements instead of unrolling', nontrivial=False,
+             note="element coverage of the EMITTED loop nest is decided on concrete shapes by R-C06-grid")
+        return
     if any(len(s.loops) != 1 for s in sites) or len({s.loops for s in sites}) != 1:
         r.bad(m, fn, 'list case: element loop', "the recursion is not inside exactly one loop over the list elements",
               h.fdef.lineno)
@@ -605,9 +652,10 @@ def top_visit(g, h):
 
 def compose(h, tmpl, rec):
     """the leaf template with the top-level access path substituted for the prefix parameter"""
-    if h.prefix is None:
-        return tmpl
-    return U.subst_values(tmpl, {Sym(h.prefix): rec.args[h.pos(h.prefix)]})
+    mapping = {Sym(p): Const('') for p in getattr(h, 'layout_params', [])}
+    if h.prefix is not None:
+        mapping[Sym(h.prefix)] = rec.args[h.pos(h.prefix)]
+    return U.subst_values(tmpl, mapping) if mapping else tmpl
 
 
 def path_problem(node, root, hl, key, what):
@@ -2278,6 +2326,326 @@ def rule_admit_deep(repo):
 
 
 # ---------------------------------------------------------------------------
+# R-C06-grid: the generators unfolded for a grid of concrete field shapes; the EMITTED source is parsed and the
+# actions it performs are enumerated (loops that the emitted code itself contains are iterated), then compared
+# with the specification of the property for that shape.  Complements the induction rules: it also judges
+# generators that emit run-time loops instead of unrolling, and end-to-end layout (absolute bit positions).
+def grid_shapes():
+    B = lambda w: U.Shape('bits', width=w)
+    L = lambda e, n: U.Shape('list', n=n, elem=e)
+    P = U.Shape('struct', name='P', fields=[('a', B(2)), ('b', L(B(5), 2))])
+    Q = U.Shape('struct', name='Q', fields=[('p', P), ('l', L(L(B(2), 2), 3))])
+    return [B(4), P, L(B(4), 1), L(B(4), 2), L(B(4), 3), L(L(B(4), 2), 2), L(L(B(4), 3), 2), L(L(B(4), 2), 3),
+            L(L(L(B(4), 2), 3), 2), L(P, 2), L(L(P, 2), 2), Q, L(Q, 2)]
+
+
+def _leaves_delegate(shape, path):
+    if shape.kind == 'list':
+        return [p for i in range(shape.n) for p in _leaves_delegate(shape.elem, f"{path}[{i}]")]
+    return [path]
+
+
+def _leaves_packed(shape, path):
+    """(path, width) of every Bits leaf in packing order, most significant first"""
+    if shape.kind == 'bits':
+        return [(path, shape.width)]
+    if shape.kind == 'struct':
+        return [x for n, f in shape.fields for x in _leaves_packed(f, f"{path}.{n}")]
+    return [x for i in range(shape.n - 1, -1, -1) for x in _leaves_packed(shape.elem, f"{path}[{i}]")]
+
+
+def _expected_clone(shape, path):
+    if shape.kind == 'list':
+        return ('list', tuple(_expected_clone(shape.elem, f"{path}[{i}]") for i in range(shape.n)))
+    return ('call', path + '.clone', ())
+
+
+def _expected_unpack(shape, pos, src):
+    """normal form of the from_bits argument for `shape` whose most significant bit is just below pos[0]"""
+    if shape.kind == 'bits':
+        hi = pos[0]
+        pos[0] -= shape.width
+        return ('slice', src, pos[0], hi, False)
+    if shape.kind == 'struct':
+        return ('call', '*', tuple(_expected_unpack(f, pos, src) for _, f in shape.fields))
+    elems = [_expected_unpack(shape.elem, pos, src) for _ in range(shape.n)]      # element n-1 is most significant
+    return ('list', tuple(reversed(elems)))
+
+
+def _anon_calls(x, keep):
+    if isinstance(x, tuple) and x and x[0] == 'call':
+        return ('call', x[1] if x[1] in keep else '*', tuple(_anon_calls(a, keep) for a in x[2]))
+    if isinstance(x, tuple) and x and x[0] == 'list':
+        return ('list', tuple(_anon_calls(a, keep) for a in x[1]))
+    return x
+
+
+def _first_diff(a, b, where='result'):
+    if type(a) != type(b) or not isinstance(a, tuple):
+        return None if a == b else f"{where}: generated {a!r}, specified {b!r}"
+    if a[:1] != b[:1] or (a[0] in ('call',) and a[1] != b[1]):
+        return f"{where}: generated {_short(a)}, specified {_short(b)}"
+    if a[0] in ('call', 'list'):
+        xs, ys = a[-1], b[-1]
+        if len(xs) != len(ys):
+            return f"{where}: {len(xs)} elements/arguments generated, {len(ys)} specified"
+        for i, (x, y) in enumerate(zip(xs, ys)):
+            d = _first_diff(x, y, f"{where}[{i}]")
+            if d:
+                return d
+        return None
+    return None if a == b else f"{where}: generated {_short(a)}, specified {_short(b)}"
+
+
+def _short(x):
+    if isinstance(x, tuple) and x:
+        if x[0] == 'slice':
+            return f"{x[1]}[{x[2]}:{x[3]}]"
+        if x[0] == 'path':
+            return x[1]
+        if x[0] == 'call':
+            return f"{x[1]}(...{len(x[2])} args)"
+        if x[0] == 'list':
+            return f"[...{len(x[1])} elements]"
+    return repr(x)[:60]
+
+
+def rule_grid(repo):
+    r = RuleResult('R-C06-grid',
+                   "for every shape of a grid (Bits, nested struct, 1/2/3-dimensional lists, lists of structs, struct with "
+                   "lists) the emitted @=/<<=/_flip touch every leaf exactly once leaf-wise, clone copies element k to position "
+                   "k, to_bits lists the leaves first-field-most-significant / element 0 least significant with nbits = sum of "
+                   "widths, and from_bits cuts every leaf from exactly the bits to_bits put it in")
+    from collections import Counter, OrderedDict
+    A = analysis(repo)
+    m = A.m
+    for shape in grid_shapes():
+        fields = OrderedDict([('x', U.Shape('bits', width=3)), ('f', shape), ('z', U.Shape('bits', width=1))])
+        total_spec = sum(f.nbits for f in fields.values())
+        delegate = [p for n, f in fields.items() for p in _leaves_delegate(f, n)]
+        packed = [x for n, f in fields.items() for x in _leaves_packed(f, n)]
+        total_gen = None
+        for gname in ('_mk_imatmul_fn', '_mk_ff_fn', '_mk_clone_fn', '_mk_deepcopy_fn', '_mk_nbits_to_bits_fn',
+                      '_mk_from_bits_fns'):
+            g = A.gen(gname)
+            fs = g.fields_sym()
+            if fs is None:
+                raise AnalysisError(f"{gname} does not iterate its field table")
+            extra = []
+            for val in g.ev.final_env.vars.values():
+                if isinstance(val, U.V):
+                    extra += [x for x in U.walk_values(val) if isinstance(x, Fold) and x not in extra]
+            conc = U.Concretiser({h.name: h for h in g.helpers.values()}, folds=extra)
+            env = {fs: fields}
+            if gname == '_mk_from_bits_fns':
+                others = [p_ for p_ in g.params if Sym(p_) != fs]
+                env[Sym(others[0])] = total_gen if total_gen is not None else total_spec
+            try:
+                res = conc.with_folds(g.top, env)
+            except AnalysisError as ex:
+                # the induction rules judge this generator; the grid only has to decide when they deferred to it
+                if any(emits_loop_header(h) for h in g.helpers.values()):
+                    raise
+                r.ok(m, gname, f"{gname} for f: {shape!r}", nontrivial=False, note=f"not decided on the grid: {ex}")
+                if str(ex) not in ' '.join(r.observations):
+                    r.observations.append(f"{gname}: not unfolded on the grid ({ex}); judged by the induction rules only")
+                continue
+            r.evaluations += conc.steps
+            items = res if isinstance(res, tuple) else (res,)
+            for it in items:
+                if not isinstance(it, dict):
+                    if gname == '_mk_nbits_to_bits_fn':
+                        total_gen = it
+                        cons = f"nbits for f: {shape!r}"
+                        if it == total_spec:
+                            r.ok(m, gname, cons)
+                        else:
+                            r.bad(m, gname, cons, f"for fields (x: Bits3, f: {shape!r}, z: Bits1) the generated nbits is {it}, "
+                                  f"the sum of the leaf widths is {total_spec}", g.fdef.lineno)
+                    continue
+                fname = it['name']
+                src = f"def {fname}({', '.join(it['args'])}):\n" + '\n'.join('  ' + b for b in it['body'])
+                cons = f"{fname} for f: {shape!r}"
+                try:
+                    fd = ast.parse(src).body[0]
+                except SyntaxError as ex:
+                    r.bad(m, gname, cons, f"the generated source does not compile: {ex.msg}: {src[:200]!r}", g.fdef.lineno)
+                    continue
+                acts = U.emitted_actions(fd)
+                msg = _judge_emitted(fname, acts, delegate, packed, fields, total_spec, Counter)
+                if msg:
+                    r.bad(m, gname, cons, f"for fields (x: Bits3, f: {shape!r}, z: Bits1): " + msg, g.fdef.lineno)
+                else:
+                    r.ok(m, gname, cons)
+    r.require_floor(75)
+    return r
+
+
+def _judge_emitted(fname, acts, delegate, packed, fields, total, Counter):
+    rets = [a for a in acts if a[0] == 'return']
+    if fname in ('__imatmul__', '__ilshift__', '_flip'):
+        if fname == '_flip':
+            got = Counter(a[1] for a in acts if a[0] == 'call')
+            want = Counter(f"self.{p}._flip" for p in delegate)
+            other = [a for a in acts if a[0] not in ('call', 'return')]
+            label = lambda k: k[5:-6]
+        else:
+            op = 'MatMult' if fname == '__imatmul__' else 'LShift'
+            got = Counter((a[1], a[2], a[3]) for a in acts if a[0] == 'aug')
+            want = Counter((op, f"self.{p}", f"other.{p}") for p in delegate)
+            other = [a for a in acts if a[0] not in ('aug', 'return', 'if')]
+            label = lambda k: k[1][5:] if k[0] == op and k[1][5:] == k[2][6:] else f"{k[1]} {k[0]} {k[2]}"
+            if not rets or rets[-1] != ('return', ('path', 'self')) or acts[-1][0] != 'return':
+                return "the generated function does not end with `return self`"
+        missing = sorted(label(k) for k in (want - got))
+        extra = sorted(label(k) for k in (got - want))
+        if missing or extra or other:
+            parts = []
+            if missing:
+                parts.append(f"leaves never {'flipped' if fname == '_flip' else 'copied'}: {', '.join(missing[:6])}"
+                             + (f" (+{len(missing) - 6} more)" if len(missing) > 6 else ''))
+            if extra:
+                parts.append(f"unexpected / repeated actions: {', '.join(extra[:4])}")
+            if other:
+                parts.append(f"unexpected statement {other[0]!r}")
+            return f"the generated {fname} does not treat every leaf exactly once -- " + '; '.join(parts)
+        return None
+    if len(rets) != 1 or acts[-1][0] != 'return' or any(a[0] in ('aug', 'call') for a in acts):
+        return f"the generated {fname} is not a single return of the built value"
+    got = rets[0][1]
+    if fname in ('clone', '__deepcopy__'):
+        want = ('call', 'self.__class__', tuple(_expected_clone(f, f"self.{n}") for n, f in fields.items()))
+        return _first_diff(got, want, fname + '()')
+    if fname == 'to_bits':
+        want = ('call', 'concat', tuple(('path', f"self.{p}") for p, w in packed))
+        return _first_diff(got, want, 'concat')
+    if fname == 'from_bits':
+        assigns = [a for a in acts if a[0] == 'assign']
+        src = assigns[-1][1][0] if assigns else 'other'
+        pos = [total]
+        want = ('call', 'cls', tuple(_expected_unpack(f, pos, src) for f in fields.values()))
+        return _first_diff(_anon_calls(got, ('cls',)), want, 'cls')
+    raise AnalysisError(f"no grid specification for generated function {fname}")
+
+
+# ---------------------------------------------------------------------------
+# R-C06-fresh: every leaf object stored by the generated from_bits / __init__ / clone is freshly constructed
+def classify_emitted(e):
+    """how an emitted expression obtains its object"""
+    if isinstance(e, ast.Call):
+        if isinstance(e.func, ast.Attribute) and e.func.attr in ('clone', '__deepcopy__'):
+            return 'copy-call'
+        return 'constructor-call'
+    if isinstance(e, ast.List):
+        return 'list-literal'
+    if isinstance(e, ast.Subscript) and isinstance(e.slice, ast.Slice):
+        return 'slice'
+    if isinstance(e, (ast.IfExp, ast.BoolOp)):
+        return 'pass-through'
+    if isinstance(e, (ast.Name, ast.Attribute, ast.Subscript)):
+        return 'reference'
+    return 'other'
+
+
+def rule_fresh(repo):
+    r = RuleResult('R-C06-fresh',
+                   "every leaf stored by the generated from_bits / clone / __init__ is a freshly constructed object: a "
+                   "constructor call of the field type, a .clone() call, or a slice x[lo:hi] of the packed value (fresh by "
+                   "R-C05-value, evaluated here as well) -- never a reference to, or a conditional pass-through of, an operand")
+    A = analysis(repo)
+    m = A.m
+    # --- from_bits
+    g, h, ci, si = from_bits_parts(A)
+    for hv in h.variants():
+        for kind, allowed, what in (('bits', ('slice', 'constructor-call'), 'Bits leaf'),
+                                    ('struct', ('constructor-call',), 'nested struct'),
+                                    ('list', ('list-literal',), 'list')):
+            if hv.label and not hv.label.startswith(f" [{kind} "):
+                continue
+            t = one_item(hv.comps(kind)[si])
+            cons = f"from_bits {what}"
+            if t is None:
+                r.bad(m, hv.where, cons, f"the {kind} case emits {show(hv.comps(kind)[si])[:80]}: not one expression", h.fdef.lineno)
+                continue
+            hl = U.Holes()
+            e, src, err = U.parse_text(t, hl, 'eval')
+            cls_ = 'other' if err else classify_emitted(e)
+            if cls_ in allowed:
+                r.ok(m, hv.where, f"{cons}: {cls_}", note=show(t)[:80])
+            else:
+                r.bad(m, hv.where, f"{cons}: {show(t)[:80]}", f"from_bits obtains a {what} by `{src}` ({cls_}): the value stored "
+                      f"in the new struct may be the very object it was read from (aliasing in both directions)", h.fdef.lineno)
+    # --- clone / deepcopy
+    gc = A.gen('_mk_clone_fn')
+    hc = the_helper(gc)
+    for hv in hc.variants(('bits', 'struct')):
+        for kind in ('bits', 'struct'):
+            if hv.label and not hv.label.startswith(f" [{kind} "):
+                continue
+            t = hv.cases[kind][0]
+            cons = f"clone {kind} leaf"
+            hl = U.Holes()
+            e, src, err = U.parse_text(t, hl, 'eval') if stringish(t) else (None, show(t), 'x')
+            cls_ = 'other' if err else classify_emitted(e)
+            if cls_ in ('copy-call', 'constructor-call'):
+                r.ok(m, hv.where, f"{cons}: {cls_}", nontrivial=(kind == 'bits'))
+            else:
+                r.bad(m, hv.where, f"{cons}: {show(t)[:80]}", f"clone obtains a leaf by `{src}` ({cls_}): the copy shares the object "
+                      f"with the original", hc.fdef.lineno)
+    # --- __init__: what is stored per field
+    gi = A.gen('_mk_init_fn', KINDS)
+    for kind in KINDS:
+        fn, ev = gi.tops[kind]
+        cons = f"__init__ stores a {kind} field"
+        hl = U.Holes()
+        fd, src, err = U.parse_fn(fn, hl) if isinstance(fn, Fn) else (None, '', 'not a function')
+        sts = [st for st in (fd.body if fd is not None else []) if isinstance(st, ast.Assign)]
+        if fd is None or len(sts) != 1:
+            r.bad(m, gi.name, cons, f"cannot find the per-field assignment in the generated __init__ ({err})", gi.fdef.lineno)
+            continue
+        v = sts[0].value
+        cls_ = classify_emitted(v)
+        params = [a.arg for a in fd.args.args][1:]
+        if kind == 'bits':
+            ok = cls_ == 'constructor-call'
+            why = "a Bits field must be stored as <field type>(<argument>): storing the argument itself (also conditionally, e.g. "                   "when it already has the field's type) makes the struct alias the caller's object"
+        else:
+            # <argument> or <fresh default>: the argument passes through by design; every generated caller (from_bits, clone)
+            # passes a freshly built object (clauses above), the default must be a constructor call / list literal
+            ok = isinstance(v, ast.BoolOp) and isinstance(v.op, ast.Or) and len(v.values) == 2 \
+                and isinstance(v.values[0], ast.Name) and isinstance(hl.value(v.values[0].id), LoopVar) \
+                and hl.value(v.values[0].id).role == 'key' and len(params) == 1 \
+                and isinstance(hl.value(params[0]), LoopVar) and hl.value(params[0]).role == 'key' \
+                and isinstance(hl.value(getattr(v.values[1], 'id', '')), Rec)
+            why = f"a {kind} field must be stored as `<argument> or <freshly built default>`"
+            if ok:
+                d = a_default = fd.args.defaults[0] if fd.args.defaults else None
+                if not (isinstance(d, ast.Constant) and d.value is None):
+                    ok = False
+                    why = (f"the signature default of a {kind} field is `{norm(d)}`: a default expression is evaluated once, so every "
+                           f"instance built without that argument shares one object (the sentinel must be None)")
+        if ok:
+            r.ok(m, gi.name, f"{cons}: {cls_}")
+        else:
+            r.bad(m, gi.name, f"{cons}: {norm(v)[:80]}", why, gi.fdef.lineno)
+    out = [r]
+    # --- the primitives the clauses above rely on (Bits slicing / clone / concat build new objects): C05's rule
+    try:
+        from rules import c05
+        prim = getattr(c05, 'rule_value_semantics', None)
+    except Exception:
+        prim = None
+    if prim is not None:
+        res = prim(repo)
+        out += res if isinstance(res, list) else [res]
+    else:
+        r.observations.append("rules.c05.rule_value_semantics not available: freshness of x[lo:hi] / clone() is assumed")
+    r.evaluations = A.steps()
+    r.require_floor(7)
+    return out
+
+
+# ---------------------------------------------------------------------------
 # R-C06-concat
 def rule_concat(repo):
     r = RuleResult('R-C06-concat', "concat(a, b, ...) places its first operand most significant, each operand shifted by the "
@@ -2430,7 +2798,7 @@ def rule_leaf_values(repo):
     return rule_range(repo)
 
 
-RULES = [rule_traversal, rule_leaf, rule_width, rule_mirror, rule_eqhash, rule_init, rule_wiring, rule_admit, rule_concat, rule_cache, rule_leaf_values]
+RULES = [rule_traversal, rule_leaf, rule_width, rule_mirror, rule_eqhash, rule_init, rule_wiring, rule_admit, rule_grid, rule_fresh, rule_concat, rule_cache, rule_leaf_values]
 THOROUGH_RULES = [rule_admit_deep]
 
 
@@ -2600,6 +2968,55 @@ MUTANTS = [
        'R-C06-wiring'),
     _m('admit-guard-after-store', "    _check_field_annotation( cls, a_name, a_type )\n    fields[ a_name ] = a_type",
        "    fields[ a_name ] = a_type\n    _check_field_annotation( cls, a_name, a_type )", 'R-C06-admit'),
+    # --- freshness of stored leaves (fourth seeding round)
+    _m('bits-full-width-slice-returns-self', "      nbits = stop - start\n      return _new_valid_bits(",
+       "      nbits = stop - start\n      if nbits == self._nbits:\n        return self\n      return _new_valid_bits(", 'R-C05-value',
+       file='pymtl3/datatypes/PythonBits.py'),
+    _m('from-bits-whole-value-leaf-passed-through', '''      return start_bit, [ f"other[{start_bit}:{end_bit}]" ]''',
+       '''      return start_bit, [ "other" if start_bit == 0 and end_bit == total_nbits else f"other[{start_bit}:{end_bit}]" ]''',
+       'R-C06-fresh'),
+    _m('init-bits-kept-when-same-class', "return f'{self_name}.{name} = _type_{name}({name})'",
+       "return f'{self_name}.{name} = {name} if {name}.__class__ is _type_{name} else _type_{name}({name})'", 'R-C06'),
+    _m('init-struct-default-in-signature', "    return f'{name} = None'\n  return f'{name} = 0'",
+       "    return f'{name} = None' if isinstance( type_, list ) else f'{name} = _type_{name}()'\n  return f'{name} = 0'", 'R-C06'),
+    # --- emitted run-time loops (fourth seeding round): nested dimensions share one loop variable
+    _m('ff-emitted-loops-share-variable', '''  def _gen_list_ilshift_strs( type_, prefix='' ):
+    if isinstance( type_, list ):
+      ilshift_strs, flip_strs = [], []
+      for i in range(len(type_)):
+        ils, fls = _gen_list_ilshift_strs( type_[0], f"{prefix}[{i}]" )
+        ilshift_strs.extend( ils )
+        flip_strs.extend( fls )
+      return ilshift_strs, flip_strs
+    else:
+      return [ f"self.{prefix} <<= other.{prefix}" ], [f"self.{prefix}._flip()"]
+''', '''  def _gen_list_ilshift_strs( type_, prefix='', indent='' ):
+    if isinstance( type_, list ):
+      loop = f"{indent}for i in range({len(type_)}):"
+      ils, fls = _gen_list_ilshift_strs( type_[0], f"{prefix}[i]", indent + '  ' )
+      return [ loop ] + ils, [ loop ] + fls
+    else:
+      return [ f"{indent}self.{prefix} <<= other.{prefix}" ], [f"{indent}self.{prefix}._flip()"]
+''', 'R-C06-grid'),
+    _m('ff-emitted-loops-one-short', '''  def _gen_list_ilshift_strs( type_, prefix='' ):
+    if isinstance( type_, list ):
+      ilshift_strs, flip_strs = [], []
+      for i in range(len(type_)):
+        ils, fls = _gen_list_ilshift_strs( type_[0], f"{prefix}[{i}]" )
+        ilshift_strs.extend( ils )
+        flip_strs.extend( fls )
+      return ilshift_strs, flip_strs
+    else:
+      return [ f"self.{prefix} <<= other.{prefix}" ], [f"self.{prefix}._flip()"]
+''', '''  def _gen_list_ilshift_strs( type_, prefix='', indent='' ):
+    if isinstance( type_, list ):
+      v = f"i{len(indent)//2}"
+      loop = f"{indent}for {v} in range({len(type_)-1}):"
+      ils, fls = _gen_list_ilshift_strs( type_[0], f"{prefix}[{v}]", indent + '  ' )
+      return [ loop ] + ils, [ loop ] + fls
+    else:
+      return [ f"{indent}self.{prefix} <<= other.{prefix}" ], [f"{indent}self.{prefix}._flip()"]
+''', 'R-C06-grid'),
     # --- admission guard of list fields (third seeding round)
     _m('admit-rows-leaf-type-not-compared', "      assert y_type is x_type and y_dims == x_dims", "      assert y_dims == x_dims",
        'R-C06-admit'),
@@ -2701,6 +3118,25 @@ EQUIV = [
        "    ftype = a_type\n    _check_field_annotation( cls, a_name, ftype )\n    fields[ a_name ] = ftype"),
     _m('concat-width-closed-form', "    value = nbits = 0\n\n    for x in args:\n      xnb = x.nbits\n      nbits += xnb\n      value = (value << xnb) | x.uint()",
        "    value = 0\n    nbits = sum( x.nbits for x in args )\n\n    for x in args:\n      value = (value << x.nbits) | x.uint()", file=HELPERS),
+    _m('ff-emitted-loops-distinct-variables', '''  def _gen_list_ilshift_strs( type_, prefix='' ):
+    if isinstance( type_, list ):
+      ilshift_strs, flip_strs = [], []
+      for i in range(len(type_)):
+        ils, fls = _gen_list_ilshift_strs( type_[0], f"{prefix}[{i}]" )
+        ilshift_strs.extend( ils )
+        flip_strs.extend( fls )
+      return ilshift_strs, flip_strs
+    else:
+      return [ f"self.{prefix} <<= other.{prefix}" ], [f"self.{prefix}._flip()"]
+''', '''  def _gen_list_ilshift_strs( type_, prefix='', indent='' ):
+    if isinstance( type_, list ):
+      v = f"i{len(indent)//2}"
+      loop = f"{indent}for {v} in range({len(type_)}):"
+      ils, fls = _gen_list_ilshift_strs( type_[0], f"{prefix}[{v}]", indent + '  ' )
+      return [ loop ] + ils, [ loop ] + fls
+    else:
+      return [ f"{indent}self.{prefix} <<= other.{prefix}" ], [f"{indent}self.{prefix}._flip()"]
+'''),
     _m('from-bits-list-reverse-in-place', """      return end_bit, [ f"[{','.join(reversed(from_strs))}]" ]""",
        """      from_strs.reverse()
       return end_bit, [ f"[{','.join(from_strs)}]" ]"""),
